@@ -1,6 +1,7 @@
 package drpcconn
 
 import (
+	"storj.io/drpc/drpcmanager"
 	"storj.io/drpc/drpcwire"
 	vrt "storj.io/drpc/internal/verifrt"
 	"storj.io/drpc/internal/verifrt/hx"
@@ -77,4 +78,49 @@ func VerifH_TransportFault() {
 	_, ok := hx.ParseOut(tr.Out)
 	vrt.Assert(ok, "bytes written before the fault are whole well-formed frames")
 	conn.Close()
+}
+
+
+// VerifH_FaultWhileWriteParked: an Invoke's request write is parked inside the transport
+// (tiny writer buffer: the write happens inside RawWrite) when the transport fails on the
+// read side (or the peer goes away); the manager tears down, the parked write then
+// fails. The call must return an error, Close must complete and nothing may be left.
+func VerifH_FaultWhileWriteParked() {
+	tr := &hx.Transport{}
+	gate := false
+	tr.Gate = &gate
+	tiny := vrt.Bool("tinyWriterBuffer")
+	wsize := 0
+	if tiny {
+		wsize = 1
+	}
+	conn := NewWithOptions(tr, Options{Manager: drpcmanager.Options{WriterBufferSize: wsize, SoftCancel: vrt.Bool("soft")}})
+	enc := hx.ByteEnc{}
+	var err1 error
+	d1 := false
+	go func() {
+		in := []byte{1, 2, 3}
+		var out []byte
+		err1 = conn.Invoke(hx.NewCtx(), "a", enc, &in, &out)
+		d1 = true
+	}()
+	vrt.WaitFor(&tr.WParked)
+	vrt.Quiesce()
+	vrt.Assert(!d1, "the call is parked in the transport write")
+	if vrt.Bool("peerEOF") {
+		tr.EOF = true
+	} else {
+		tr.FaultRead = 1
+	}
+	tr.CanRead = true // the reader's pending Read now fails
+	vrt.Quiesce()
+	vrt.Assert(d1 && err1 != nil, "the parked call returns an error once the transport has failed")
+	vrt.Assert(hx.IsClosedCh(conn.Closed()), "the connection reports itself closed")
+	cdone := false
+	go func() { conn.Close(); cdone = true }()
+	vrt.Quiesce()
+	vrt.Assert(cdone, "Close completes after the failure")
+	vrt.Assert(tr.Closes == 1, "the transport is closed exactly once")
+	vrt.Assert(vrt.Unfinished() == 0, "no goroutine is left behind")
+	vrt.Cover("fault-parked-end")
 }
